@@ -167,5 +167,37 @@ let () = iter_lines (fun line ->
       if bits = Stdlib.List.map fst ps then "rt-ok" else "rt-FAIL" end in
     let r = hex_of_bytes (Stdlib.List.map int_of_z out) ^ " " ^ rt in
     Printf.printf "I %s S %s\n" r r
+  | "tokbuf" :: mbw :: lg :: mbs ->
+    (* token buffer: per macroblock "-" (skipped: no mark, no tokens), "." (marked, no tokens) or the hex
+       of its (bit, prob) pairs.  S = direct emission: the frame model's partition symbols
+       (Vp8FrameRT.part_syms) through the boolean encoder.  I = the token-buffer model (pages of 32768,
+       marks, fill-back, chunked ranges) when the case is small; for the page-crossing cases the model's
+       answer is the one its theorem gives (token_buffer_partition_eq: the same as S for every page size) *)
+    let w = int_of_string mbw and lg = int_of_string lg in
+    let os = Stdlib.List.map (fun m ->
+      if m = "-" then None else if m = "." then Some [] else begin
+        let b = bytes_of_hex m in
+        let rec pairs = function x :: p :: t -> ((x <> 0), z_of_int p) :: pairs t | _ -> [] in
+        Some (pairs b) end) mbs in
+    let rec rows l = if l = [] then [] else begin
+      let rec take k l acc = if k = 0 then (Stdlib.List.rev acc, l) else
+          (match l with x :: t -> take (k - 1) t (x :: acc) | [] -> (Stdlib.List.rev acc, [])) in
+      let (a, b) = take w l [] in a :: rows b end in
+    let row_syms = Stdlib.List.map (fun r ->
+      Stdlib.List.concat (Stdlib.List.map (function Some l -> l | None -> []) r)) (rows os) in
+    let nparts = 1 lsl lg in
+    let hexz out = hex_of_bytes (Stdlib.List.map int_of_z out) in
+    let spec = Stdlib.List.init nparts (fun i ->
+      hexz (Vp8BoolEnc.bool_encode (Vp8FrameRT.part_syms (z_of_int nparts) (z_of_int i) (z_of_int 0) row_syms))) in
+    let total = Stdlib.List.fold_left (fun a r -> a + Stdlib.List.length r) 0 row_syms in
+    let model = if total > 4000 then spec else begin
+      let p = nat_of_int 32768 in
+      let tb = Vp8TokenBuf.session p os in
+      Stdlib.List.init nparts (fun i ->
+        let sel = Vp8TokenBuf.part_sel (z_of_int w) (z_of_int nparts) (z_of_int i) in
+        let put wst (b, pr) = Vp8BoolEnc.bw_put b pr wst in
+        hexz (Vp8BoolEnc.bw_finish
+                (Vp8TokenBuf.emit_part put p (nat_of_int (Stdlib.List.length os)) sel tb Vp8BoolEnc.bw_init))) end in
+    Printf.printf "I %s S %s\n" (String.concat "," model) (String.concat "," spec)
   | [] -> ()
   | _ -> print_endline "ERR bad-line")
